@@ -777,6 +777,48 @@ func c12KPerspective(ctx *vfCtx, c c12KCase) {
 	for _, r := range rs {
 		c12ExpectMapped(ctx, "C12/fetcher/perspective/good-response-dropped", r, results, skip)
 	}
+	// a key ID that several acceptable documents of one server name: in general it is not decided which
+	// document speaks for it (skipped above). One class is decided: every earlier document lists it as a
+	// current key and the LAST one retires it (old_verify_keys, same key) - the answer after a key
+	// rotation. The retirement must not be lost: the result is the expired form.
+	for pk, n := range seen {
+		if n < 2 {
+			continue
+		}
+		var roles []string
+		var last c12KeyResp
+		for _, r := range rs {
+			if r.name != string(pk.ServerName) {
+				continue
+			}
+			_, cur := r.verify[string(pk.KeyID)]
+			_, old := r.old[string(pk.KeyID)]
+			switch {
+			case cur && old:
+				roles = append(roles, "both")
+			case cur:
+				roles = append(roles, "current")
+			case old:
+				roles = append(roles, "retired")
+			default:
+				continue
+			}
+			last = r
+		}
+		decided := len(roles) >= 2 && roles[len(roles)-1] == "retired"
+		for _, role := range roles[:max(0, len(roles)-1)] {
+			decided = decided && role == "current"
+		}
+		if !decided {
+			continue
+		}
+		ctx.Class("perspective/key-current-in-earlier-documents-retired-in-the-last")
+		o := last.old[string(pk.KeyID)]
+		v, ok := results[pk]
+		if !ok || uint64(v.ExpiredTS) != o.expired || v.ValidUntilTS != 0 || !bytes.Equal(v.Key, o.key) {
+			ctx.Fail("C12/fetcher/perspective/retirement-lost", "%s/%s is a current key in the earlier document(s) and retired (expired_ts %d) in the last one; result has present=%v valid_until_ts %d expired_ts %d", pk.ServerName, pk.KeyID, o.expired, ok, v.ValidUntilTS, v.ExpiredTS)
+		}
+	}
 }
 
 // ---- generator ----
@@ -964,6 +1006,22 @@ func c12KGen(t *rapid.T) c12KCase {
 			// key ID and notary-signed under the pinned one — both signatures carry the same name)
 			si := rapid.SampledFrom([]int{0, 0, 1, 1, 2}).Draw(t, "respServer")
 			c.PerspectiveResp = append(c.PerspectiveResp, c12GenResp(t, c12KServers[si], 3*si, true, c.Perspective, 8, "p"))
+		}
+		if rapid.IntRange(0, 5).Draw(t, "rotation") == 0 {
+			// a key rotation seen through the notary: the document from before the rotation (key a
+			// current, still within its validity) followed by the one after it (key a retired, key b current)
+			si := rapid.IntRange(0, 1).Draw(t, "rotServer")
+			name, base := c12KServers[si], 3*si
+			exp := c12Rel(-rapid.SampledFrom([]int64{c12Minute, c12Hour, c12Day}).Draw(t, "rotExpired"))
+			before := c12RespSpec{Name: name, ValidUntil: c12Rel(c12Hour), Tag: "rotation-before",
+				Verify: []c12VK{{KeyID: "ed25519:a", Key: c12Pub(base)}},
+				Sigs:   []c12SigSpec{{Signer: name, KeyID: "ed25519:a", Pool: base}, {Signer: c.Perspective, KeyID: "ed25519:n", Pool: 8}}}
+			after := c12RespSpec{Name: name, ValidUntil: c12Rel(30 * c12Day), Tag: "rotation-after",
+				Verify: []c12VK{{KeyID: "ed25519:b", Key: c12Pub(base + 1)}},
+				Old:    []c12OK{{KeyID: "ed25519:a", Key: c12Pub(base), Expired: exp}},
+				Sigs:   []c12SigSpec{{Signer: name, KeyID: "ed25519:b", Pool: base + 1}, {Signer: c.Perspective, KeyID: "ed25519:n", Pool: 8}}}
+			c.PerspectiveResp = []c12RespSpec{before, after}
+			c.PerspectiveErr = false
 		}
 		for si := 0; si < 3; si++ {
 			c.Requests = append(c.Requests, c12KeyReq{Server: c12KServers[si], KeyID: "ed25519:a"})
